@@ -372,9 +372,44 @@ def add_key_typestate(prog, R, V):
                         h = V.handlers(cls).get("SymEngine::Mul")
                         if h and h != f["u"]:
                             how = "self"
+            numeric_split = None
+            if how == "split":
+                # as_coef_term(x) of a *number* x yields the key 1: the split
+                # input must be known not to be a Number (a dominating
+                # is_a_Number test that failed), or the function removes the
+                # key `one` afterwards (the add() idiom)
+                removes_one = any(
+                    m.get("k") == "mcall" and m.get("n") == "find"
+                    and m.get("a") and show(m["a"][0]).strip("()") in (
+                        "one", "RCP<const Basic>(one)")
+                    for m in walk(f["body"])) or "find(one)" in show(
+                        f["body"]) or "d.find(RCP<const Basic>(one))" \
+                    in show(f["body"])
+                nonnum = False
+                for g in _sym.flatten_guards(guards):
+                    if g[0] == "case":
+                        continue
+                    c, pol = g
+                    tt = show(c)
+                    if "is_a_Number" in tt and not pol:
+                        nonnum = True
+                    if pol and c.get("k") == "call" and c.get("n") == "is_a":
+                        nonnum = True   # a definite non-number class
+                if not (nonnum or removes_one):
+                    numeric_split = True
             R.instance("R3.2", key, sample={"site": show(n)[:80],
                                             "term": txt[:40],
                                             "established_by": how})
+            if numeric_split:
+                R.violation(
+                    "R3.2", "%s:%s:numeric" % (short(f["qn"]), txt[:30]),
+                    prog.loc(f, n.get("l")),
+                    "%s splits a term with as_coef_term and inserts the "
+                    "result with the raw Add::dict_add_term on a path where "
+                    "the term may be a Number (no failed is_a_Number test, "
+                    "no removal of the key `one` afterwards): a number "
+                    "splits into (number, 1), so `1` becomes a key of the "
+                    "Add" % short(f["qn"]))
             if how is None:
                 R.violation(
                     "R3.2", "%s:%s" % (short(f["qn"]), txt[:30]),
